@@ -147,7 +147,8 @@ pub fn check_program(prog: &AProg, style: &Style, debug: bool, out: &mut Vec<Fai
             let Some(ro) = &rr.obj else { return info };
             info.labels = ro.labels.len(); info.image_words = ro.image.len();
             check_image(&obj, ro, debug, text, out);
-            if debug { check_symbols(&obj, ro, prog, &rendered, out); }
+            // without debug symbols a table still exists when the file declares externals (it is linker information): its label queries are judged too
+            if debug || obj.symbol_table().is_some() { check_symbols(&obj, ro, prog, &rendered, out); }
             let mut h = 0u64; for (a, w) in &ro.image { h = mix(h, (*a as u64) << 17 | w.map(|x| x as u64 + 1).unwrap_or(0)); }
             info.outcome_hash = h;
         }
